@@ -159,6 +159,23 @@ def _template(ctx, kind, side):
         t1 = ctx.real('t1', 50, 200)
         ctx.constrain(And(sl < 99.9, t1 > 100.1) if long else And(sl > 100.1, t1 < 99.9))
         return S.make_template(side=side, entry=None, stop=[(2.0, sl)], take=[(1.0, t1)], qty=2.0, name='T3o')
+    if kind == 'T9':  # partial take-profit, then the position is increased again by an entry declared in on_reduced_position
+        sl = ctx.real('sl', 50, 200)
+        t1 = ctx.real('t1', 50, 200)
+        pb = ctx.real('pb', 50, 200)
+        ctx.constrain(And(sl < 99.9, t1 > 100.1, pb > sl + 0.5, pb < t1 - 0.5) if long else And(sl > 100.1, t1 < 99.9, pb < sl - 0.5, pb > t1 + 0.5))
+
+        def again(s, order):
+            if not s.vars.get('again'):
+                s.vars['again'] = True
+                if long:
+                    s.buy = (1.0, pb)
+                else:
+                    s.sell = (1.0, pb)
+        resize = lambda s, order=None: setattr(s, 'stop_loss', [(abs(s.position.qty), sl)])
+        return S.make_template(side=side, entry=None, stop=[(2.0, sl)], take=[(1.0, t1)], qty=2.0, name='T9',
+                               reduced_stop=lambda s: [(abs(s.position.qty), sl)], increased=resize,
+                               extra_hooks={'on_reduced_position': again})
     if kind == 'T5':  # liquidate() at step 1, open position otherwise until the end
         sl = ctx.real('sl', 50, 200)
         ctx.constrain(sl < 99.9 if long else sl > 100.1)
@@ -202,9 +219,10 @@ def _jobs(tier):
         add(n=3, kind='T2', side='short', sym_from=2)
         add(n=3, kind='T3u', side='short', sym_from=2)
         add(n=3, kind='T3u', side='long', sym_from=2)
+        add(n=3, kind='T9', side='long')
     else:
         for side in ('long', 'short'):
-            for kind in ('T1', 'T2', 'T3', 'T3u', 'T3o', 'T5', 'T0', 'T8f'):
+            for kind in ('T1', 'T2', 'T3', 'T3u', 'T3o', 'T5', 'T0', 'T8f', 'T9'):
                 add(n=3, kind=kind, side=side)
         add(n=4, kind='T1', side='long', leverage=10)
         add(n=4, kind='T3', side='long', leverage=5)
